@@ -998,6 +998,14 @@ class Interp:
             return Adt("LevelFilter", "Trace")
         if text.endswith("SystemTime::UNIX_EPOCH") or names[-1] == "UNIX_EPOCH":
             return Adt("SystemTime", None, [0])
+        m = re.search(r"<impl ([ui])(\d+|size)>::(MAX|MIN|BITS)$", text)
+        if m:
+            w = 64 if m.group(2) == "size" else int(m.group(2))
+            if m.group(3) == "BITS":
+                return w
+            if m.group(1) == "u":
+                return (1 << w) - 1 if m.group(3) == "MAX" else 0
+            return (1 << (w - 1)) - 1 if m.group(3) == "MAX" else (1 << (w - 1))      # two's complement bit pattern
         # unit enum variants of known enums:  Option::<T>::None, ast::Test::True ...
         if len(names) >= 2 and names[-2] in self.P.enum_variants and names[-1] in self.P.enum_variants[names[-2]]:
             if (names[-2], names[-1]) in self.P.variant_has_fields and not self.P.variant_has_fields[(names[-2], names[-1])]:
@@ -1048,6 +1056,14 @@ class Interp:
                 return Ref(key, path)
             if pl.proj and pl.proj[-1][0] == "subslice":
                 return self.read_place(pl, fr, st)          # &x[a..b]: the fat pointer is the window itself
+            pt = self.place_type(pl, fr) or ""
+            if "Cell<" in pt:
+                # a shared borrow of something with interior mutability must stay a real pointer: writes through it are visible
+                try:
+                    key, path = self.resolve(pl, fr, st)
+                    return Ref(key, path)
+                except Unsupported:
+                    pass
             return ValRef(self.read_place(pl, fr, st))
         if k == "addr":
             mut, pl = a
